@@ -134,7 +134,7 @@ def main():
         "hooks": {
             "guard": "verif",
             "enable": "no hook lives in /repo: every check copies /repo's working tree to a scratch directory, instruments the copy (bin/instrument: sync primitives, channel operations, go statements, sleeps, exits, map ranges -> pkg/zverif/simrt) and builds it with go1.26.8 -tags verif",
-            "baseline_off_cmd": "cd /repo && GOFLAGS=-mod=mod GOWORK=off go test -vet=off -count=1 ./pkg/...",
+            "baseline_off_cmd": "cd /repo && go test -json -vet=off -count=1 -timeout 25m ./...",
             "source_commits": [],
             "add_only": True,
         },
